@@ -1618,5 +1618,11 @@ def flat_conic(ctx):
     return res
 
 
-RULES = [flat_conic, remove_relink, geometry_attr, append_default, insertion, derived_sync_rule, arg_wiring_rule, init_stores, scalar_conv, placement, thickness_edit, media_chain, one_stop,
+
+def no_stale(ctx):
+    from .common import stale_cache
+    return stale_cache(ctx, 'NO-STALE-STATE', [],
+                       'an edit made after the first update() is not followed', min_methods=0)
+
+RULES = [no_stale, flat_conic, remove_relink, geometry_attr, append_default, insertion, derived_sync_rule, arg_wiring_rule, init_stores, scalar_conv, placement, thickness_edit, media_chain, one_stop,
          setter_writes, pickup, solve]
